@@ -179,3 +179,20 @@ func H_C15_WiringGenesisOrder() {
 	rt.Assert("C15.invariants-asserted-after-stream-and-enterprise-import", crisis < 0 || (crisis > indexOf(order, func(s string) bool { return s == "stream" }) && crisis > indexOf(order, func(s string) bool { return s == "enterprise" })))
 	rt.Reach("end")
 }
+
+// H_C10_WiringFeeCollector: the stream keeper pays the validator-fee share of every release to
+// the fee collector account (the account x/distribution sweeps), as H_C10_* assume.
+func H_C10_WiringFeeCollector() {
+	rt.Assert("C10.stream-fees-go-to-the-fee-collector", rtw.StreamFeeCollector() == authtypes.FeeCollectorName)
+	rt.Reach("end")
+}
+
+// H_C03_WiringBeginBlock: the enterprise begin blocker is run by the module manager in every
+// block, and the upgrade module runs first (store migrations — e.g. the move of the enterprise
+// parameters into the module store — must be in place before any module reads its state).
+func H_C03_WiringBeginBlock() {
+	order := rtw.BeginBlockOrder()
+	rt.Assert("C03+C14.enterprise-begin-blocker-registered", lastIndex(order, "enterprise") >= 0)
+	rt.Assert("C03+C14.upgrade-runs-before-every-other-begin-blocker", len(order) > 0 && order[0] == "upgrade")
+	rt.Reach("end")
+}
